@@ -17,7 +17,7 @@ Extraction "model.ml"
   opt_test infeas_test wf_logicals
   exact_solver_gen exact_solver
   neg_obj scale_row_lp dup_row add_redundant split_eq perm_rows is_perm subst_vars perm_cols
-  to_double ulp
+  to_double ulp_of
   lib_solution internal_min
   lpstat_of_code code_of_lpstat col_bstat_of_code row_bstat_of_code max_levels
   inverse null_vector solve solve_left mat_vec vec_mat veqb check_binv_row check_tableau_row check_ftran check_btran basis_optimalstatus basis_dualstatus Bmat bazl zfull yuser nonbasic_ok xB_of pi_of load_ok objval_l coefAt ftran btran ftran_dense check_repr wf_repr
